@@ -100,6 +100,7 @@ def run_shard(spec, acc):
         law_batch_subjects(rnd, ev, mods, imps, acc)
         law_batch_objects(rnd, ev, mods, imps, acc)
         law_partial_list(rnd, ev, mods, imps, acc)
+        law_regex_reused_object(rnd, ev, mods, imps, acc)
         if i % 97 == 0:
             acc.sample({"modules": mods, "imports": imps, "laws": "regex=expansion x3, partial-name=regex, multi-subject=conjunction, multi-object=conjunction"})
 
@@ -255,6 +256,44 @@ def law_partial_list(rnd, ev, mods, imps, acc, forced=None):
         acc.nontrivial({"m": mods, "i": imps, "pl": case["forced"]})
 
 
+def law_regex_reused_object(rnd, ev, mods, imps, acc, forced=None):
+    """A regex rule is defined by its regex, not by the architecture it happened to see first: the same
+    rule object applied to a second architecture must behave like the named expansion computed there."""
+    from ..drive import random_imports as _ri
+
+    k, rx = regexes_for(rnd, mods)
+    verb, d, exc = _verb_dir(rnd)
+    other = _other(rnd, mods, "named")
+    drop = rnd.choice([m for m in mods if m != "r" and m != other[1]] or [None])
+    if forced:
+        rx, verb, d, exc, other, drop = forced
+        other = tuple(other)
+    if drop is None:
+        return
+    mods2 = [m for m in mods if not (m == drop or m.startswith(drop + "."))]
+    imps2 = [(a, b) for a, b in imps if a in mods2 and b in mods2]
+    if other[1] not in mods2:
+        return
+    case = {"kind": "regex_reused", "mods": mods, "imps": imps, "forced": [rx, verb, d, exc, other, drop]}
+    HUB.case = case
+    ev2 = build(mods2, imps2)
+    compact = {"verb": verb, "dir": d, "exc": exc, "subs": [("regex", rx)], "objs": [other], "anything": False}
+    rule = mk_rule(compact)
+    first = outcome(rule, ev, acc)[0]
+    second = outcome(rule, ev2, acc)[0]  # the SAME object on another architecture
+    m2 = sorted(m for m in mods2 if re.match(rx, m))
+    acc.count("law_regex_reused_object")
+    if not m2:
+        if second in ("pass", "fail"):
+            HUB.violation("C11", "unmatched-regex-verdict:reused-rule-object", f"regex matches nothing in the second architecture but the re-used rule gave '{second}'", {"case": case})
+        return
+    fresh = outcome(dict(compact, subs=[("named", m) for m in m2]), ev2, acc)[0]
+    if second != fresh:
+        HUB.violation("C11", "regex-vs-expansion:reused-rule-object", f"rule object first applied to another architecture gave {second}; the expansion over this architecture's modules gives {fresh}", {"case": case, "first": first, "matches_here": m2})
+    if imps2 and len(m2) >= 1:
+        acc.nontrivial({"m": mods, "rr": case["forced"]})
+
+
 def law_batch_subjects(rnd, ev, mods, imps, acc, forced=None):
     names = [m for m in mods if m != "r"]
     verb, d, exc = _verb_dir(rnd)
@@ -317,7 +356,7 @@ def replay(case, acc):
     mods, imps = case["mods"], [tuple(i) for i in case["imps"]]
     ev = build(mods, imps)
     f = case["forced"]
-    {"regex": law_regex, "partial": law_partial, "partial_list": law_partial_list, "batch_subjects": law_batch_subjects, "batch_objects": law_batch_objects}[case["kind"]](rnd, ev, mods, imps, acc, forced=f)
+    {"regex": law_regex, "partial": law_partial, "partial_list": law_partial_list, "regex_reused": law_regex_reused_object, "batch_subjects": law_batch_subjects, "batch_objects": law_batch_objects}[case["kind"]](rnd, ev, mods, imps, acc, forced=f)
 
 
 def floors(acc, tier):
